@@ -425,6 +425,37 @@ def make_case(op, args, nots=None):
         fn = G.ref_esubst if op == 'ES' else G.ref_ssubst
         return Case(op, args, lambda drop: fn(E(p, drop), x, E(g, drop), drop),
                     lambda ans, drop: E(_term(ans), drop), 'subst', PC.has_kind(p, 'I'), (p, g))
+    if op in ('UW', 'UE'):
+        code = r.int()
+        p = r.term()
+        CODE = {'e': 0, 's': 1, 'y': 2, 'i': 3, 'a': 4, 'x': 5, 'm': 6, 'v': 7, 'E': 8, 'S': 9}
+        miss = None if op == 'UW' else 'RAISE'
+
+        def spec(drop):
+            e = E(p, drop)
+            if code != 11 and code != CODE[e[0]]:
+                return miss
+            k = e[0]
+            if k in 'ia':
+                return (e[1], e[2])
+            if k in 'xm':
+                return (e[2],)
+            if k in 'ES':
+                return (e[1], e[3], ('e' if k == 'E' else 's', e[2]))
+            return ()
+
+        def post(ans, drop):
+            if ans in ('NONE', 'RAISE'):
+                return None if ans == 'NONE' else 'RAISE'
+            try:
+                rr = PC.Reader(ans)
+                res = rr.tuple()
+                if not rr.done():
+                    raise BadAnswer(ans)
+                return tuple(E(a, drop) for a in res)
+            except (ValueError, IndexError):
+                raise BadAnswer(ans)
+        return Case(op, args, spec, post, 'unwrap-any-class', p[0] == 'I', (p,))
     if op in ('DN', 'DNP'):
         ts = [r.term()] + ([r.term()] if op == 'DNP' else [])
 
@@ -542,6 +573,9 @@ def case_inputs(op, args, nots=None):
         return [r.term()], (), ()
     if op == 'DNP':
         return [r.term(), r.term()], (), ()
+    if op in ('UW', 'UE'):
+        r.int()
+        return [r.term()], (), ()
     if op in ('I', 'BI', 'BIS'):
         p = r.term()
         return [p] + [v for _, v in r.delta()], (), ()
